@@ -12,16 +12,20 @@ WORLDS = {
     "W2b": dict(keys="W2bKeys", files="W2bFiles", scripts="W2bScripts", srcs="W2bSrcs", ops="W2bOps", hasr=False),
     "W3":  dict(keys="W3Keys", files="W3Files", scripts="W3Scripts", srcs="W3Srcs", ops="W3Ops", hasr=True),
     "W4":  dict(keys="W4Keys", files="W4Files", scripts="W4Scripts", srcs="W4Srcs", ops="W4Ops", hasr=True),
+    "W4d": dict(keys="W4Keys", files="W4Files", scripts="W4Scripts", srcs="W4Srcs", ops="W4dOps", hasr=True),
     "W5":  dict(keys="W5Keys", files="W5Files", scripts="W5Scripts", srcs="W5Srcs", ops="W5Ops", hasr=True, dirsu='{"d.e"}'),
     "W6":  dict(keys="W6Keys", files="W6Files", scripts="W6Scripts", srcs="W6Srcs", ops="W6Ops", hasr=True),
     "W6c": dict(keys="W6Keys", files="W6Files", scripts="W6Scripts", srcs="W6Srcs", ops="W6Ops", hasr=False),
     "W7":  dict(keys="W7Keys", files="W7Files", scripts="W7Scripts", srcs="W7Srcs", ops="W7Ops", hasr=False),
     "W7r": dict(keys="W7Keys", files="W7Files", scripts="W7Scripts", srcs="W7Srcs", ops="W7ROps", hasr=True),
+    "W7c": dict(keys="W7cKeys", files="W7Files", scripts="W7cScripts", srcs="W7Srcs", ops="W7cOps", hasr=True),
+    "W6d": dict(keys="W6Keys", files="W6Files", scripts="W6Scripts", srcs="W6Srcs", ops="W6dOps", hasr=True),
     "W8":  dict(keys="W3Keys", files="W3Files", scripts="W3Scripts", srcs="W3Srcs", ops="W8Ops", hasr=True),
     "W9":  dict(keys="W9Keys", files="W9Files", scripts="W9Scripts", srcs="W9Srcs", ops="W9Ops", hasr=True),
 }
 
-FIX_GOI = "FALSE"   # follows the code: TRUE once get_or_insert entries are static (D7 repaired)
+ORDER_FIRST = "TRUE"
+FIX_GOI = "TRUE"    # get_or_insert entries are static (D7 repaired in /repo); "FALSE" is the as-built negative control
 
 
 def cfg_text(w, n, spec="GSpec", invariants=("Emit",), properties=(), extra=""):
@@ -29,7 +33,7 @@ def cfg_text(w, n, spec="GSpec", invariants=("Emit",), properties=(), extra=""):
     lines = [f"SPECIFICATION {spec}", "CONSTANTS",
              f"  Keys <- {d['keys']}", f"  Files <- {d['files']}", f"  DirsU = {d.get('dirsu', '{}')}",
              f"  Scripts <- {d['scripts']}", f"  InitSrcs <- {d['srcs']}", "  InitDirs = {}",
-             f"  HasReloader = {'TRUE' if d['hasr'] else 'FALSE'}", f"  FixGoi = {FIX_GOI}",
+             f"  HasReloader = {'TRUE' if d['hasr'] else 'FALSE'}", f"  FixGoi = {FIX_GOI}", f"  OrderFirst = {ORDER_FIRST}",
              f"  Ops <- {d['ops']}", f"  N = {n}"]
     for i in invariants:
         lines.append(f"INVARIANT {i}")
